@@ -23,11 +23,24 @@ import warnings
 from concurrent.futures import ThreadPoolExecutor
 
 from .common import Report, jhash
-from .tlc import run_tlc, require_ok, TlcFailure
+from .tlc import run_tlc as _run_tlc, require_ok, TlcFailure
 
 PREC = {"Unplug": 0, "Plugin": 10, "Recompute": 20}
 BATCH_FILE = "EventQueue_batch.ndjson"
 MC_ACTIONS = ["Add", "AddMany", "DoGetEvent", "GetCurrentAt", "QLen", "QEmpty", "QLastTs", "RoundTrip"]
+
+
+def run_tlc(module, cfg, heap="2g", **kw):
+    """Several TLC processes run side by side here: each gets an explicit heap limit (the JVM default of
+    a quarter of the machine per process adds up), and a run that dies without a verdict (killed from
+    outside, out of memory) is repeated once before it counts as a machinery failure."""
+    kw.setdefault("env_extra", {"JAVA_TOOL_OPTIONS": "-Xmx" + heap})
+    try:
+        return _run_tlc(module, cfg, **kw)
+    except TlcFailure as e:
+        if "gave no verdict" not in str(e):
+            raise
+        return _run_tlc(module, cfg, **kw)
 
 
 # ----------------------------------------------------------------------------------------------
@@ -543,7 +556,7 @@ def _check_C11(tier, seed, pool):
     f_gen = ex.submit(run_tlc, "MC_EventQueue", "EventQueue_gen", workers=1, timeout=900)
     f_sim = ex.submit(run_tlc, "MC_EventQueue", "EventQueue_sim", workers=1, simulate=30000 if thorough else 3000,
                       depth=14, seed=seed, timeout=900)
-    f_mc4 = ex.submit(run_tlc, "MC_EventQueue", "EventQueue_mc", coverage=False, workers=8, timeout=1800) if thorough else None
+    f_mc4 = ex.submit(run_tlc, "MC_EventQueue", "EventQueue_mc", coverage=False, workers=8, timeout=1800, heap="8g") if thorough else None
     try:
         gen, sim = f_gen.result(), f_sim.result()
         return _bind(rep, tier, seed, pool, gen, sim,
